@@ -2,6 +2,7 @@
 //! implementation in /repo on generated cases and writes line-aligned `<stream>.cases` /
 //! `<stream>.impl` files plus `<stream>.stats.json`.  `kvh replay <stream> <case>` runs one case.
 mod s_body;
+mod s_conn;
 mod s_date;
 mod s_headers;
 mod s_parse;
@@ -26,6 +27,9 @@ fn main() {
             "headers" => s_headers::run(&a[3]),
             "parse" => s_parse::run_parse(&a[3]),
             "body" => s_body::run(&a[3]),
+            "conn" => s_conn::run(&a[3]),
+            "readloop" => s_conn::run_readloop(&a[3]),
+            "clientread" => s_conn::run_clientread(&a[3]),
             "prefix" => s_parse::run_prefix(&a[3]),
             "grammar" => s_parse::run_grammar(&a[3]),
             s => panic!("unknown stream {s}"),
@@ -47,6 +51,8 @@ fn main() {
         "headers" => s_headers::gen(&ctx),
         "parse" => s_parse::gen_parse(&ctx),
         "body" => s_body::gen(&ctx),
+        "readloop" => s_conn::gen_readloop(&ctx),
+        "clientread" => s_conn::gen_clientread(&ctx),
         "prefix" => s_parse::gen_prefix(&ctx),
         "grammar" => s_parse::gen_grammar(&ctx),
         s => panic!("unknown stream {s}"),
